@@ -397,13 +397,13 @@ def run(ctx):
             cin = json.loads(key)
             exp = conv_keys(cin["ops"], out["ops"])
             cin["terms"] = {"ideal": out["macs"]}
-            last = cin["ops"][-1]["op"]
-            kinds[last] = kinds.get(last, 0) + 1
+            for o in cin["ops"]:
+                kinds[o["op"]] = kinds.get(o["op"], 0) + 1
             f.write(json.dumps({"in": cin, "exp": exp}, separators=(",", ":")) + "\n")
             nk += 1
     if nk < 5000 or any(kinds.get(k, 0) == 0 for k in ("key_new", "k_sign", "present", "from_name", "from_str", "to_name")):
         raise vlib.ToolError("generator produced too few key behaviours (%d, %s)" % (nk, kinds))
-    ctx.stage("merge-keys", {"behaviours": nk, "ending_in": kinds})
+    ctx.stage("merge-keys", {"behaviours": nk, "ops": kinds})
     head = os.path.join(ctx.work, "head-keys.ndjson")
     with open(kcases) as f, open(head, "w") as h:
         for i, line in enumerate(f):
